@@ -528,7 +528,15 @@ func (p *c17Prog) render(b *strings.Builder, r int, ss []c17Stmt, held []int, lo
 		case "pop":
 			fmt.Fprintf(b, " (vtrace 'rv %d %d (channel-pop *ch%d*))", r, s.Ch, s.Ch)
 		case "incr":
+			// an increment outside every section (family sync) is an operation of its own: its
+			// invocation and response are recorded around it (see Model/Lin.lean)
+			if len(held) == 0 {
+				fmt.Fprintf(b, " (vtrace 'iv %d %d)", r, s.K)
+			}
 			fmt.Fprintf(b, " (let ((v %s)) (vtrace 'rd %d %d v) (vyield) %s)", p.readExpr(s.K), r, s.K, p.writeExpr(s.K, "(1+ v)"))
+			if len(held) == 0 {
+				fmt.Fprintf(b, " (vtrace 'rs %d %d)", r, s.K)
+			}
 		case "yield":
 			b.WriteString(" (vyield)")
 		case "sync":
@@ -603,6 +611,22 @@ func (p *c17Prog) render(b *strings.Builder, r int, ss []c17Stmt, held []int, lo
 			p.render(b, r, s.Body, nil, loopVar, depth)
 			b.WriteString(")")
 		case "lock":
+			// an outermost section is the operation on the counters it increments: invoked before the
+			// lock is requested, responded when the routine is past the form (not recorded when the
+			// section is left by an error: the operation stays pending)
+			var opK []int
+			if len(held) == 0 {
+				seen := map[int]bool{}
+				c17Walk(c17Expand(s.Body), func(x c17Stmt) {
+					if x.Kind == "incr" && !seen[x.K] {
+						seen[x.K] = true
+						opK = append(opK, x.K)
+					}
+				})
+				for _, k := range opK {
+					fmt.Fprintf(b, " (vtrace 'iv %d %d)", r, k)
+				}
+			}
 			if s.Ret {
 				fmt.Fprintf(b, " (block c17b%d", depth)
 			}
@@ -617,6 +641,11 @@ func (p *c17Prog) render(b *strings.Builder, r int, ss []c17Stmt, held []int, lo
 			b.WriteString(")")
 			if s.Ret {
 				b.WriteString(")")
+			}
+			if !c17EndsFailed(s.Body) {
+				for _, k := range opK {
+					fmt.Fprintf(b, " (vtrace 'rs %d %d)", r, k)
+				}
 			}
 		case "repeat":
 			v := fmt.Sprintf("i%d", depth)
@@ -1750,7 +1779,8 @@ func c17CheckRun(c *lib.Ctx, cs *c17Case, run *c17Run, model map[string]string, 
 	for i := range recv {
 		recv[i] = map[int][]string{}
 	}
-	var mlog, reads, finals []string
+	var mlog, reads, finals, lin []string
+	linPending := map[[2]int64]bool{}
 	lens := map[int]int64{}
 	finalVal := map[int]int64{}
 	for _, e := range run.Res.Trace {
@@ -1801,12 +1831,27 @@ func c17CheckRun(c *lib.Ctx, cs *c17Case, run *c17Run, model map[string]string, 
 			mlog = append(mlog, fmt.Sprintf("e.%d.%d", e.A[0], e.A[1]))
 		case "ex":
 			mlog = append(mlog, fmt.Sprintf("x.%d.%d", e.A[0], e.A[1]))
+		case "iv":
+			if len(e.A) >= 2 && !linPending[[2]int64{e.A[0], e.A[1]}] {
+				linPending[[2]int64{e.A[0], e.A[1]}] = true
+				lin = append(lin, fmt.Sprintf("i.%d.%d", e.A[0], e.A[1]))
+			}
+		case "rs":
+			if len(e.A) >= 2 {
+				lin = append(lin, fmt.Sprintf("r.%d.%d", e.A[0], e.A[1]))
+			}
 		case "rd":
 			v := e.A[2]
 			if v < 0 {
 				v = 999999999
 			}
 			reads = append(reads, fmt.Sprintf("%d.%d", e.A[1], v))
+			if !linPending[[2]int64{e.A[0], e.A[1]}] {
+				// no invocation on record (an increment in a nested position): invoked just now
+				lin = append(lin, fmt.Sprintf("i.%d.%d", e.A[0], e.A[1]))
+			}
+			delete(linPending, [2]int64{e.A[0], e.A[1]})
+			lin = append(lin, fmt.Sprintf("p.%d.%d.%d", e.A[0], e.A[1], v))
 		case "fin":
 			v := e.A[1]
 			if v < 0 {
@@ -1864,9 +1909,14 @@ func c17CheckRun(c *lib.Ctx, cs *c17Case, run *c17Run, model map[string]string, 
 		reqs = append(reqs, fmt.Sprintf("conc counter %s %s", r, strings.Join(finals, ",")))
 		names = append(names, "counter")
 	}
+	if len(reads) > 0 && !p.Burst && !p.Shared && !p.Defun {
+		// the whole history of increment operations (all counters): linearizable?
+		reqs = append(reqs, "conc lin "+strings.Join(lin, ","))
+		names = append(names, "lin")
+	}
 	replies := c.Model(reqs)
 	for i, rep := range replies {
-		if rep == "ok pass" {
+		if rep == "ok pass" || strings.HasPrefix(rep, "ok pass ") {
 			continue
 		}
 		what := names[i]
@@ -1876,6 +1926,21 @@ func c17CheckRun(c *lib.Ctx, cs *c17Case, run *c17Run, model map[string]string, 
 			sig = fmt.Sprintf("checker=fifo verdict=%s %s", strings.TrimPrefix(rep, "ok fail "), strings.SplitN(what, " ", 3)[2])
 		case what == "mutex":
 			sig = "checker=mutex verdict=" + strings.SplitN(strings.TrimPrefix(rep, "ok fail "), "=", 2)[0]
+		case what == "lin":
+			f := strings.Fields(strings.TrimPrefix(rep, "ok fail "))
+			kind := "-"
+			for _, x := range f {
+				if ks, ok := strings.CutPrefix(x, "k="); ok {
+					if k, err := strconv.Atoi(ks); err == nil && k < len(p.Kinds) {
+						kind = p.Kinds[k]
+					}
+				}
+			}
+			verdict := "?"
+			if len(f) > 0 {
+				verdict = f[0]
+			}
+			sig = "checker=lin verdict=" + verdict + " kind=" + kind
 		default:
 			kind := "?"
 			if f := strings.TrimPrefix(rep, "ok fail k="); f != rep {
@@ -2558,6 +2623,12 @@ func runC17(c *lib.Ctx) {
 	if v, err := strconv.Atoi(os.Getenv("VERIF_C17_REPEAT")); err == nil && v > 1 {
 		repeat = v
 	}
+	if c.GenBroken != "" && repeat < 3 {
+		// an obligation over the regenerated structure of the primitives no longer checks: search a
+		// failing input harder (the sweep cells isolate the constructs the obligations are about)
+		repeat = 3
+		c.Ev.Coverage["witness_search_for_broken_obligation"] = c.GenBroken
+	}
 	// VERIF_C17_ONLY=<prefix> runs only the sweep cells whose name starts with the prefix and no
 	// composite programs (development aid; not used by the registered commands)
 	only := os.Getenv("VERIF_C17_ONLY")
@@ -2715,7 +2786,7 @@ func runC17(c *lib.Ctx) {
 				"program": p, "cell": r.j.cs.Cell, "gomaxprocs": r.j.procs, "race": r.j.cs.Race,
 				"input": c17Clip(p.source(false), 6000), "observed": c17Clip(v.Observed, 3000), "expected": v.Expected,
 				"expected_from": "model:conc checkers / sequential run",
-				"relies_on":     []string{"SlipVerif.Conc.exec_fifoOk", "SlipVerif.Conc.exec_mutexOk", "SlipVerif.Conc.exec_counterOk", "SlipVerif.Conc.no_lost_update"},
+				"relies_on":     []string{"SlipVerif.Conc.exec_fifoOk", "SlipVerif.Conc.exec_mutexOk", "SlipVerif.Conc.exec_counterOk", "SlipVerif.Conc.no_lost_update", "SlipVerif.Lin.linCheck_sound"},
 			})
 		}
 	}
